@@ -46,13 +46,15 @@ def _model(chk: Check) -> bool:
 class Stepper(collections.abc.Coroutine):  # type: ignore[type-arg]
     """Wraps a coroutine; counts the steps of the task that runs it and calls on_step(n) after each of them."""
 
-    def __init__(self, coro: Any, on_step: Callable[[int], None]) -> None:
+    def __init__(self, coro: Any, on_step: Callable[[int], None], before_step: Callable[[int], None] | None = None) -> None:
         self.coro = coro
         self.on_step = on_step
+        self.before_step = before_step or (lambda n: None)
         self.n = 0
 
     def send(self, value: Any) -> Any:
         self.n += 1
+        self.before_step(self.n)
         try:
             return self.coro.send(value)
         finally:
@@ -60,6 +62,7 @@ class Stepper(collections.abc.Coroutine):  # type: ignore[type-arg]
 
     def throw(self, *args: Any) -> Any:
         self.n += 1
+        self.before_step(self.n)
         try:
             return self.coro.throw(*args)
         finally:
@@ -335,7 +338,11 @@ class SocketAdapter(Path):
 PATHS: list[type[Path]] = [TLSCloseAnswer, TLSCloseStall, TLSCloseVanish, TLSWrapStalled, Forcefully, Stapled, Endpoint, TCPClient, TCPClientBehindSender, UDPClient, SocketAdapter]
 
 
-async def _run_once(cls: type[Path], cancel_before: int | None, fail_inner: int) -> tuple[list[dict[str, Any]], int]:
+async def _run_once(cls: type[Path], cancel_before: int | None, fail_inner: int, early: bool = False) -> tuple[list[dict[str, Any]], int]:
+    """cancel_before = k: task.cancel() is called between step k-1... precisely, after step k of the close task was run (so that the
+    cancellation is delivered at the following one).  late (default): the call is queued after step k, i.e. it runs behind every
+    callback that step k scheduled (connection_lost, transport callbacks); early: it is queued before step k runs, i.e. it runs
+    ahead of them -- the order a timeout scheduled earlier or another task's cancel() gives."""
     events: list[dict[str, Any]] = []
     finished = [False]
 
@@ -348,14 +355,14 @@ async def _run_once(cls: type[Path], cancel_before: int | None, fail_inner: int)
     loop = asyncio.get_running_loop()
     holder: dict[str, Any] = {}
 
-    def on_step(n: int) -> None:
-        events.append({"ev": "step"})
-        if cancel_before is not None and n == cancel_before - 1 + 1 - 0 and n == cancel_before:
-            pass
-
     def on_step2(n: int) -> None:
         events.append({"ev": "step"})
-        if cancel_before is not None and n == cancel_before and not holder.get("cancelled"):
+        if not early and cancel_before is not None and n == cancel_before and not holder.get("cancelled"):
+            holder["cancelled"] = True
+            loop.call_soon(_cancel)
+
+    def before(n: int) -> None:
+        if early and cancel_before is not None and n == cancel_before and not holder.get("cancelled"):
             holder["cancelled"] = True
             loop.call_soon(_cancel)
 
@@ -365,9 +372,8 @@ async def _run_once(cls: type[Path], cancel_before: int | None, fail_inner: int)
             events.append({"ev": "cancel"})
             t.cancel()
 
-    del on_step
     events.append({"ev": "start"})
-    stepper = Stepper(path.close(), on_step2)
+    stepper = Stepper(path.close(), on_step2, before)
     task = loop.create_task(stepper)
     holder["task"] = task
     try:
@@ -395,7 +401,10 @@ async def _run_once(cls: type[Path], cancel_before: int | None, fail_inner: int)
             await asyncio.sleep(0)
             if t2.done():
                 break
-        if t2.done() and loop.time() - t0 < 1e-6:
+        if t2.done() and t2.cancelled():
+            # nobody cancelled this task: the second close neither returned nor failed, it killed its caller
+            events.append({"ev": "second", "kind": "cancelled"})
+        elif t2.done() and loop.time() - t0 < 1e-6:
             events.append({"ev": "second", "kind": "prompt"})
         else:
             events.append({"ev": "second", "kind": "slow"})
@@ -438,6 +447,13 @@ def run(chk: Check) -> None:
                 except vloop.VirtualDeadlock:
                     evs2 = [{"ev": "start"}, {"ev": "hang"}]
                 rec.append({"inners": cls.ninner, "events": evs2, "meta": f"{cls.name} cancel_before_step={k} fail_inner={fail}"})
+                nruns += 1
+                # the same cancellation queued ahead of the callbacks that step k schedules (connection_lost, ...)
+                try:
+                    evs3, _ = vloop.run(lambda: _run_once(cls, k, fail, early=True), spin_limit=5000)
+                except vloop.VirtualDeadlock:
+                    evs3 = [{"ev": "start"}, {"ev": "hang"}]
+                rec.append({"inners": cls.ninner, "events": evs3, "meta": f"{cls.name} cancel_before_step={k} order=early fail_inner={fail}"})
                 nruns += 1
         per_path[cls.name] = nruns
     slim = [{"inners": t["inners"], "events": traces.uniform(t["events"], EVD)} for t in rec]
